@@ -143,11 +143,21 @@ def check_arbitrary(text):
     return []
 
 
-def check_stream(lines):
+def check_stream(lines, how='iter'):
     """lines: list of [kind, text, msgdict|None]; kind in valid / invalid / blank / comment."""
     texts = [ln[1] for ln in lines]
     try:
-        got = list(mido.parse_string_stream(iter(texts)))
+        import io
+        joined = ''.join(t if t.endswith('\n') else t + '\n' for t in texts)
+        if how == 'file' and all('\n' not in t.rstrip('\n') and '\r' not in t for t in texts):
+            stream = io.StringIO(joined)           # a text file: lines keep their newline
+        elif how == 'list':
+            stream = list(texts)
+        elif how == 'tuple':
+            stream = tuple(texts)
+        else:
+            stream = iter(texts)
+        got = list(mido.parse_string_stream(stream))
     except Exception as exc:  # noqa: BLE001
         return [fail('stream-raises', f'{texts!r}: {exc!r}', exc=exc_sig(exc))]
     want = [(i + 1, ln) for i, ln in enumerate(lines) if ln[0] in ('valid', 'invalid')]
@@ -183,7 +193,7 @@ def run_case(case):
     if k == 'arbitrary':
         return check_arbitrary(case['text'])
     if k == 'stream':
-        return check_stream(case['lines'])
+        return check_stream(case['lines'], case.get('how', 'iter'))
     raise KeyError(k)
 
 
@@ -313,7 +323,7 @@ def stream_cases(draw):
             lines.append(['blank', draw(st.sampled_from(['', '\n', '   ', '\t\n'])), None])
         else:
             lines.append(['comment', draw(st.sampled_from(['# hi', '#', '  # note_on', '#foo\n'])), None])
-    return {'kind': 'stream', 'lines': lines}
+    return {'kind': 'stream', 'lines': lines, 'how': draw(st.sampled_from(['iter', 'list', 'tuple', 'file']))}
 
 
 TOKENS = (list(R.ALL_TYPES) + [n + '=' for n in list(R.RANGES) + ['data', 'time', 'type', 'foo', '']] +
